@@ -131,6 +131,7 @@ struct carquet_writer {
     int64_t file_offset;
     int64_t total_rows;
     bool header_written;
+    carquet_status_t flush_failed;   /* first failure of a row-group flush, reported again by close */
 
     /* Arena for metadata allocations */
     carquet_arena_t arena;
@@ -644,8 +645,14 @@ carquet_status_t carquet_writer_new_row_group(carquet_writer_t* writer) {
         return status;
     }
 
-    /* Flush current row group if any */
-    return flush_row_group(writer);
+    /* Flush current row group if any.  A flush that fails may already have
+     * written part of the row group or recorded part of its metadata; the
+     * file cannot be completed any more, whatever the caller does next. */
+    status = flush_row_group(writer);
+    if (status != CARQUET_OK && writer->flush_failed == CARQUET_OK) {
+        writer->flush_failed = status;
+    }
+    return status;
 }
 
 carquet_status_t carquet_writer_close(carquet_writer_t* writer) {
@@ -655,6 +662,13 @@ carquet_status_t carquet_writer_close(carquet_writer_t* writer) {
     /* Ensure header is written */
     status = ensure_header_written(writer);
     if (status != CARQUET_OK) {
+        goto cleanup;
+    }
+
+    /* A row group that could not be flushed earlier was reported by
+     * carquet_writer_new_row_group; the file is incomplete */
+    if (writer->flush_failed != CARQUET_OK) {
+        status = writer->flush_failed;
         goto cleanup;
     }
 
